@@ -70,7 +70,10 @@ where
     Idx: Index<usize> + ?Sized,
     Idx::Output: Hash + Eq,
 {
+    #[cfg(not(similar_verif))]
     let mut by_item = HashMap::new();
+    #[cfg(similar_verif)]
+    let mut by_item = HashMap::with_hasher(crate::verif::SeededState::current());
     for index in range {
         match by_item.entry(&lookup[index]) {
             Entry::Vacant(entry) => {
@@ -89,6 +92,8 @@ where
         .filter_map(|(_, x)| x)
         .map(|index| UniqueItem { lookup, index })
         .collect::<Vec<_>>();
+    #[cfg(similar_verif)]
+    crate::verif::scramble(&mut rv);
     rv.sort_by_key(|a| a.original_index());
     rv
 }
@@ -244,7 +249,10 @@ where
         {
         }
 
+        #[cfg(not(similar_verif))]
         let mut map = HashMap::new();
+        #[cfg(similar_verif)]
+        let mut map = HashMap::with_hasher(crate::verif::SeededState::current());
         let mut old_seq = Vec::new();
         let mut new_seq = Vec::new();
         let mut next_id = Int::default();
